@@ -293,6 +293,21 @@ impl SubCheck for Text {
             1 => "[\\p{L}\\p{N} ]{0,12}",
             1 => (crate::props::c12::format_string(), crate::props::c12::value()).prop_map(|(f, v)| crate::props::c12::chrono_format(&f, &v).ok().and_then(|r| r.ok()).unwrap_or_default()),
         ];
+        // long runs of one character (counters, recursion depth, digit accumulation) inside otherwise plausible text
+        let runs = (
+            proptest::sample::select(vec!["Tue, 1 Jul 2003 10:52:37 +0200 ", "2003-07-01T10:52:37", "2003-07-01T10:52:37.", "1 Jul ", "", "12:30:", "+", "Mon"]),
+            proptest::sample::select(vec!["(", ")", "()", "(\\", "0", "9", " ", "\t", ".", ":", "-", "+", "é", "\u{3000}", "a"]),
+            proptest::sample::select(vec![64usize, 255, 256, 257, 1024, 65_537]),
+            proptest::sample::select(vec!["", ")", "Z", " +0000", "x"]),
+            any::<bool>(),
+        )
+            .prop_map(|(pre, unit, n, post, close)| {
+                let mut t = format!("{pre}{}", unit.repeat(n));
+                if close && unit == "(" { t.push_str(&")".repeat(n)); }
+                t.push_str(post);
+                t
+            });
+        let near_input = prop_oneof![12 => near_input, 1 => runs];
         let pair = (crate::props::c12::format_string(), crate::props::c12::value(), any::<u16>(), any::<char>()).prop_map(|(f, v, pos, ch)| {
             // a formatted value, damaged by one edit, together with its format
             let s = crate::props::c12::chrono_format(&f, &v).ok().and_then(|r| r.ok()).unwrap_or_default();
